@@ -51,10 +51,17 @@ pub fn compare(text: &str) -> Cmp {
         (Spec::Unspecified(_), _) => unreachable!(),
         (Spec::Err(why), Err(msg)) => Cmp::AgreeErr(msg, failure.or(Some(Failure::Other(why)))),
         (Spec::Err(why), Ok((opts, tree))) => {
+            // a value beyond the range of its field may also be refused by compile()
+            if let Some(Failure::OutOfRange(_, _)) = &failure {
+                if let Ok((Err(msg), _, _)) = crate::sut::compile_g(&tree, &opts, "/dev/x") {
+                    return Cmp::AgreeErr(format!("(refused by compile) {}", msg), failure);
+                }
+            }
             let kind = match &failure {
                 Some(Failure::UnknownWord(_)) => "accepts-unknown-word".to_string(),
                 Some(Failure::MissingArgument(k)) => format!("accepts-missing-argument:{}", k),
                 Some(Failure::BadArgument(k, _)) => format!("accepts-bad-argument:{}", k),
+                Some(Failure::OutOfRange(k, _)) => format!("accepts-bad-argument:{}", k),
                 Some(Failure::Other(s)) if s == "grammar" => "accepts-nonsentence".to_string(),
                 _ => "accepts-nonmember".to_string(),
             };
@@ -104,7 +111,13 @@ pub fn compare(text: &str) -> Cmp {
                 };
             }
             let dbg = options_text(&opts);
+            // only the LAST occurrence of each kind has to be carried (last occurrence wins)
+            let mut last: Vec<(bool, u32)> = vec![];
             for (is_max, n) in &want.depth_limits {
+                last.retain(|(m, _)| m != is_max);
+                last.push((*is_max, *n));
+            }
+            for (is_max, n) in &last {
                 if !debug_shows_number(&dbg, *n) {
                     return Cmp::Bad {
                         kind: "option-dropped".into(),
